@@ -30,6 +30,20 @@ package cleaner
 //@   modifies ghost_committedEpoch
 //@   ghost nsetcommitted := ghost_nsetcommitted + 1
 
+// The background loop: every run gets a fresh clock reading (ages are measured
+// against it), a failing run is only logged, and the loop ends only when the
+// sleep between runs is cancelled.
+//@ func (w *Worker) Run
+//@   modifies heap, ghost_ndelete, ghost_committedEpoch
+//@   assumes flags_start_at_zero: ghost_loc_sleepEnded == 0
+//@   loop 0 ghost loc_fresh := 0
+//@   after_call time.Now#0 ghost loc_fresh := 1
+//@   after_call time.Now#0 ghost loc_nowWall := ret0.wall
+//@   after_call time.Now#0 ghost loc_nowExt := ret0.ext
+//@   at_call cleaner.(*Worker).RunOnce#0 assert every_run_reads_the_clock: ghost_loc_fresh == 1 && arg2.wall == ghost_loc_nowWall && arg2.ext == ghost_loc_nowExt
+//@   after_call utils.SleepContextPerturb#0 ghost loc_sleepEnded := ite(ret0 != nil, 1, 0)
+//@   ensures runs_until_cancelled: !w.conf.Enabled || ghost_loc_sleepEnded == 1
+
 // The candidates are ordered newest first by their full timestamps: the first
 // snapshot seen for an instance is its newest one.
 //@ func (w *Worker) RunOnce$1
@@ -45,6 +59,7 @@ package cleaner
 // candidate is never passed on for deletion here.
 //@ func (w *Worker) RunOnce$3
 //@   ensures newest_of_an_instance_is_kept: !old(seenInstances[ni.InstanceID]) ==> !r0 && seenInstances[ni.InstanceID]
+//@   at_call append#0 assert only_instances_silent_for_the_stale_interval: int64(now.Sub(ni.Timestamp)) > int64(w.conf.RemoveOldInstancesInterval)
 
 // One cleaning run: disabled => nothing; a List error returns before any
 // Delete; a stale instance's newest snapshot is deleted only if it is not
